@@ -259,11 +259,14 @@ func sortedKeys(m map[string][]string) []string {
 // runSchedule forces one TLC schedule. Every model operation is its own sched
 // thread ("w1#2" = second write of w1, "s#1" = first state change); operations of
 // one model thread are chained so that program order also holds while draining.
+// A write is two segments (up to the gate pq.readptr, then the rest), a leave with a
+// queue to release is two (up to pq.release.begin, then the release), everything
+// else is one.
 func runSchedule(tw *tracefmt.Writer, st *stats, n int, s schedule, step time.Duration, outbound bool) {
 	writers := sortedKeys(s.Prog)
 	tw.Emit(tracefmt.Rec{"ev": "reset", "cap": 1024, "n": n, "mode": "sched", "outbound": outbound})
 	r := newRig(tw, writers)
-	c := sched.New(nil, "pq.readptr")
+	c := sched.New(nil, "pq.readptr", "pq.release.begin")
 	c.Install()
 	ops := map[string][]string{} // model thread -> sched thread names
 	doneCh := map[string]chan struct{}{}
